@@ -114,24 +114,29 @@ Fam(r, sids, vals, dvals, tols, cis) ==
 AllTols == 1..12
 AllConst == 1..5
 
+\* The value alphabets are chosen so that rounding classes actually merge values whose
+\* ratio is inside and outside the stated bound: for base 3/2 the classes are {3,4} {5,6}
+\* {7,8,9}; for base 2 {3,4,5} {6..11}; for base 5/4 {7,8} ...; 9/7 > 5/4, 5/3 > 3/2.
 \* quick tier, exhaustive
 ExhQuick == {
-  Fam(3, {1, 2, 3}, {4, 5, 8}, {}, {1, 2, 4, 5, 8}, {2}),      \* 2 columns, 5 tolerances
+  Fam(2, {1, 2, 3}, {3, 4, 5, 7, 9}, {}, {2, 3, 4, 5, 6, 8}, {2}),  \* 2 rows, 2 columns, 6 tolerances
   Fam(3, {4}, {1, 2, 3}, {1, 2}, {1}, {3}),                    \* objective, reservation, fused loop; zero tolerance
-  Fam(3, {4}, {4, 5}, {1, 2}, {5, 6, 7, 11}, {5}) }            \* same schema, 4 tolerances
+  Fam(3, {5}, {1, 2, 3}, {1, 2}, {1, 11}, {1}),                \* fused loop, objective, n_iterations
+  Fam(3, {4}, {5, 6}, {1, 2}, {3, 5, 6, 7}, {5}) }             \* 4 tolerances
 \* thorough tier, exhaustive
 ExhThorough == {
-  Fam(3, {1, 2, 3}, {4, 5, 6, 8}, {}, {1, 2, 4, 5, 8}, {2}),
-  Fam(3, {4, 5, 7}, {1, 2, 3}, {1, 2}, {1}, {3}),
-  Fam(3, {4}, {2, 3, 4}, {1, 2}, {5, 6, 7, 11}, {5}),
-  Fam(4, {1, 2}, {4, 5, 8}, {}, {1, 5, 8}, {4}),
-  Fam(4, {4}, {4, 5}, {1, 2}, {1, 5, 7}, {1}) }
+  Fam(2, {1, 2, 3}, {2, 3, 4, 5, 6, 7, 9}, {}, AllTols, {2}),
+  Fam(3, {1, 2, 3}, {4, 5, 6}, {}, {2, 3, 4, 5, 8}, {4}),
+  Fam(3, {4, 7}, {1, 2, 3}, {1, 2}, {1}, {3}),
+  Fam(3, {5, 8}, {1, 2, 3}, {1, 2}, {1, 11}, {1}),
+  Fam(3, {4}, {4, 5, 6}, {1, 2}, {3, 5, 6, 7}, {5}),
+  Fam(4, {4}, {5, 6}, {1, 2}, {1, 5, 7}, {1}) }
 
 RandAll == <<
   \* up to 12 rows, every schema, every tolerance; small values (wide ratios)
-  Fam(12, 1..13, {1, 2, 3, 4, 5, 6, 7, 8, 12, 16}, {1, 2, 4}, AllTols, AllConst),
-  Fam(12, 1..13, {1, 2, 3, 4, 5, 6, 7, 8, 12, 16}, {1, 2, 4}, AllTols, AllConst),
-  Fam(12, 1..13, {1, 2, 3, 4, 5, 6, 7, 8, 12, 16}, {1, 2, 4}, AllTols, AllConst),
+  Fam(12, 1..13, {1, 2, 3, 4, 5, 6, 7, 8, 9, 12, 16}, {1, 2, 4}, AllTols, AllConst),
+  Fam(8, {1, 2, 3, 4, 5, 8, 13}, {3, 4, 5, 6, 7, 9}, {1, 2}, AllTols, AllConst),
+  Fam(8, {1, 2, 3, 4, 5, 8, 13}, {3, 4, 5, 6, 7, 9}, {1, 2}, AllTols, AllConst),
   \* up to 40 rows, values within a few percent of each other (small tolerances bite)
   Fam(40, {4, 9, 10, 11, 12, 13}, {96, 100, 101, 102, 104, 108, 110, 112, 120, 128}, {1, 2},
       {1, 2, 5, 6, 7, 9, 10, 12}, AllConst),
